@@ -204,11 +204,10 @@ func generateRegexMatch(w io.Writer, lexerName, name, pattern string) error {
 		}
 		switch re.Op {
 		case syntax.OpNoMatch: // matches no strings
-			fmt.Fprintf(w, "return p\n")
+			fmt.Fprintf(w, "return -1\n")
 
 		case syntax.OpEmptyMatch: // matches empty string
-			fmt.Fprintf(w, "if len(s) == 0 { return p }\n")
-			fmt.Fprintf(w, "return -1\n")
+			fmt.Fprintf(w, "return p\n")
 
 		case syntax.OpLiteral: // matches Runes sequence
 			n := len(string(re.Rune)) // length in bytes, as the generated code indexes bytes
